@@ -10,6 +10,7 @@ import (
 	"go/types"
 	"math/big"
 	"os"
+	"regexp"
 	"sort"
 	"strings"
 
@@ -1420,8 +1421,16 @@ func (x *Exec) constVal(k *ssa.Const) Value {
 	panic(unsupported("const %s of type %s", k, t))
 }
 
+var aliasWordRe = regexp.MustCompile(`\b(byte|rune)\b`)
+
 func (x *Exec) typeID(t types.Type) *Term {
-	k := typeKey(t)
+	// byte and uint8 (rune and int32) are the same type
+	k := aliasWordRe.ReplaceAllStringFunc(typeKey(t), func(w string) string {
+		if w == "byte" {
+			return "uint8"
+		}
+		return "int32"
+	})
 	id, ok := x.typeIDs[k]
 	if !ok {
 		id = int64(len(x.typeIDs) + 1)
